@@ -210,17 +210,14 @@ example : (unpackAll exD exS0 exOK).1.get ["sb", "target", "b", "f"] = some (.fi
     containedB exD exS0 (unpackAll exD exS0 exOK).1 = true := by decide
 example : exS0.get exD = some .dir := by decide
 
-/-! ### the non-retain mode reads a relative link target from the process's working directory -/
+/-! ### the non-retain mode reads a relative link target relative to the link (fix <P4>) -/
 
 /-- sandbox with a working directory `w` holding a file `a` (content 99) -/
 def exS0w : FS := (exS0.put ["w"] .dir).put ["w", "a"] (.file 99)
 def cfgCopy : Cfg := { Cfg.dflt with retain := false, cwd := ["w"] }
-/-- `usr/a` (content 1) and the link `usr/x -> a` beside it: the copy written for `usr/x` holds 99, the content of the
-working directory's `a`, not 1 (`os.ReadFile(target)` with the relative target as it stands); nothing outside the target
-is written (`C06_unpack_outside_unchanged_cfg`), but what is inside is not the image's (reported as a defect candidate) -/
-theorem C06_unpack_nonretain_reads_working_directory :
-    (unpackAllC cfgCopy exD exS0w [reg ["usr", "a"] 1, lnk ["usr", "x"] false ["a"] "a"]).1.get ["sb", "target", "usr", "x"] = some (.file 99) ∧
-    (unpackAllC cfgCopy exD exS0w [reg ["usr", "a"] 1, lnk ["usr", "x"] false ["a"] "a"]).1.get ["sb", "target", "usr", "a"] = some (.file 1) := by decide
-
+/-- `usr/a` (content 1) and the link `usr/x -> a` beside it: the copy written for `usr/x` holds 1, whatever the working
+directory has -/
+theorem C06_unpack_nonretain_reads_beside_the_link :
+    (unpackAllC cfgCopy exD exS0w [reg ["usr", "a"] 1, lnk ["usr", "x"] false ["a"] "a"]).1.get ["sb", "target", "usr", "x"] = some (.file 1) := by decide
 
 end Scalibr.Unpack
